@@ -227,7 +227,7 @@ def run_impl(case, sandbox: Path):
         await d.download()
         return d
 
-    d = sim.run_virtual(go())
+    d = sim.run_virtual(go(), timeout_vs=3e5)
     comp_order = [v["obj"] for v in views]
 
     def vindex(variant):
